@@ -31,7 +31,10 @@ use std::{
     cell::{Cell, RefCell},
     collections::{BTreeMap, BTreeSet, HashMap},
     ops::ControlFlow,
-    sync::Arc,
+    sync::{
+        atomic::{AtomicU64, Ordering},
+        Arc,
+    },
     time::Duration,
 };
 
@@ -606,7 +609,8 @@ fn char_prefix(s: &str) -> Option<&str> {
 
 fn probe_keys(cx: &Cx, list: &[(String, Fp)]) -> Vec<String> {
     let mut set: BTreeSet<String> = cx.probes.iter().cloned().collect();
-    let mut derived = 0;
+    // under Miri: one neighbourhood instead of six
+    let mut derived = if tiny() { 5 } else { 0 };
     for (k, _) in list {
         // neighbours (extensions, prefixes) of the first few enumerated keys
         if set.insert(k.clone()) && derived < 6 {
@@ -960,6 +964,30 @@ fn run_tree(r: &mut Report, node: &Node, probes: &[String], case: &dyn Fn() -> J
 }
 
 // ---------------------------------------------------------------------------
+// sub-sampling of the fixed sections (Miri interprets ~10^4 x slower than the optimised build)
+// ---------------------------------------------------------------------------
+
+static STRIDE: AtomicU64 = AtomicU64::new(1);
+static OFFSET: AtomicU64 = AtomicU64::new(0);
+static COUNTER: AtomicU64 = AtomicU64::new(0);
+
+/// Every `stride`-th fixed shape / call site is run (all of them when the stride is 1).
+fn pick() -> bool {
+    let stride = STRIDE.load(Ordering::Relaxed);
+    stride <= 1 || COUNTER.fetch_add(1, Ordering::Relaxed) % stride == OFFSET.load(Ordering::Relaxed) % stride
+}
+
+fn set_stride(stride: u64, offset: u64) {
+    STRIDE.store(stride, Ordering::Relaxed);
+    OFFSET.store(offset, Ordering::Relaxed);
+    COUNTER.store(0, Ordering::Relaxed);
+}
+
+fn tiny() -> bool {
+    STRIDE.load(Ordering::Relaxed) > 1
+}
+
+// ---------------------------------------------------------------------------
 // static generic shapes
 // ---------------------------------------------------------------------------
 
@@ -1026,12 +1054,13 @@ impl Env {
     }
 
     fn probes(&self) -> Vec<String> {
+        let (wk, nv) = if tiny() { (3, 1) } else { (WELL_KNOWN.len(), NEVER.len()) };
         self.e
             .iter()
             .map(|(k, _)| k.clone())
             .chain(self.dk.iter().cloned())
-            .chain(WELL_KNOWN.iter().map(|s| s.to_string()))
-            .chain(NEVER.iter().map(|s| s.to_string()))
+            .chain(WELL_KNOWN.iter().rev().take(wk).map(|s| s.to_string()))
+            .chain(NEVER.iter().take(nv).map(|s| s.to_string()))
             .collect()
     }
 }
@@ -1068,7 +1097,7 @@ fn static_shapes(r: &mut Report, e: &Env, only: Option<&str>, case: &dyn Fn() ->
 
     macro_rules! sh {
         ($name:literal, $v:expr) => {
-            if only.map(|o| o == $name).unwrap_or(true) {
+            if only.map(|o| o == $name).unwrap_or(true) && pick() {
                 let name: &str = $name;
                 let case2 = || {
                     let mut c = case();
@@ -1212,7 +1241,7 @@ fn static_shapes(r: &mut Report, e: &Env, only: Option<&str>, case: &dyn Fn() ->
         });
         macro_rules! emitted {
             ($name:literal, $ctxt:expr, $props:expr) => {
-                if only.map(|o| o == $name).unwrap_or(true) {
+                if only.map(|o| o == $name).unwrap_or(true) && pick() {
                     let name: &str = $name;
                     let case2 = || {
                         let mut c = case();
@@ -1430,7 +1459,7 @@ impl<'a> Emitter for SiteEmitter<'a> {
 
 fn macro_sites(r: &mut Report) {
     macro_rules! props_site {
-        ($name:literal, { $($body:tt)* }, expect: $expect:expr, absent: $absent:expr) => {{
+        ($name:literal, { $($body:tt)* }, expect: $expect:expr, absent: $absent:expr) => {if pick() {
             let site = Site { name: $name, expect: &$expect, exact: true, absent: &$absent };
             let res = catch(|| match emit::props! { $($body)* } {
                 props => {
@@ -1505,7 +1534,7 @@ fn macro_sites(r: &mut Report) {
 
     // ---- evt! ----
     macro_rules! evt_site {
-        ($name:literal, ( $($body:tt)* ), msg: $msg:expr, holes: $holes:expr, expect: $expect:expr, absent: $absent:expr) => {{
+        ($name:literal, ( $($body:tt)* ), msg: $msg:expr, holes: $holes:expr, expect: $expect:expr, absent: $absent:expr) => {if pick() {
             let site = Site { name: $name, expect: &$expect, exact: true, absent: &$absent };
             let res = catch(|| match emit::evt!( $($body)* ) {
                 evt => {
@@ -1554,7 +1583,7 @@ fn macro_sites(r: &mut Report) {
         msg: "312", holes: ["c", "a", "b"], expect: [("c", "3"), ("a", "1"), ("b", "2")], absent: []);
     evt_site!("evt-no-holes-extra-props", ("just text", #[emit::key("z")] a: 1, #[emit::key("a")] z: 2),
         msg: "just text", holes: [], expect: [("z", "1"), ("a", "2")], absent: []);
-    {
+    if pick() {
         let base = emit::props! { #[emit::key("zz")] a: "base", b: "base-b", c: "base-c" };
         let site = Site {
             name: "evt-base-props",
@@ -1566,7 +1595,7 @@ fn macro_sites(r: &mut Report) {
             evt => site_event(r, &site, &evt, "t evt 1", &["b", "0x"]),
         }
     }
-    {
+    if pick() {
         let a = 1;
         let user = String::from("u");
         let site = Site {
@@ -1592,7 +1621,7 @@ fn macro_sites(r: &mut Report) {
         let rt = emit::runtime::Runtime::build(&em, Empty, ctxt, Empty, Empty);
         let mut expected_calls = 0;
         macro_rules! emit_site {
-            ($name:literal, $mac:ident ( $($body:tt)* ), msg: $msg:expr, holes: $holes:expr, expect: $expect:expr, absent: $absent:expr) => {{
+            ($name:literal, $mac:ident ( $($body:tt)* ), msg: $msg:expr, holes: $holes:expr, expect: $expect:expr, absent: $absent:expr) => {if pick() {
                 let site = Site { name: $name, expect: &$expect, exact: false, absent: &$absent };
                 let holes: &'static [&'static str] = &$holes;
                 em.site.set(Some((site, $msg, holes)));
@@ -1641,13 +1670,15 @@ fn macro_sites(r: &mut Report) {
 fn dynamic_case(r: &mut Report, seed: u64, i: u64) {
     let mut x = Gen::new(Rng::stream(seed, &[2, 1, i]));
     let node = gen_node(&mut x, 0);
+    let (wk, nv, extra) = if tiny() { (2, 1, 1) } else { (WELL_KNOWN.len(), NEVER.len(), 3) };
+    let skip = x.g.usize(WELL_KNOWN.len() - wk + 1);
     let probes: Vec<String> = x
         .keys
         .iter()
         .cloned()
-        .chain(WELL_KNOWN.iter().map(|s| s.to_string()))
-        .chain(NEVER.iter().map(|s| s.to_string()))
-        .chain((0..3).map(|_| x.g.pick(POOL).to_string()))
+        .chain(WELL_KNOWN.iter().skip(skip).take(wk).map(|s| s.to_string()))
+        .chain(NEVER.iter().take(nv).map(|s| s.to_string()))
+        .chain((0..extra).map(|_| x.g.pick(POOL).to_string()))
         .collect();
     let text = format!("{:?}", node);
     let case = || json!({"section": "dynamic", "seed": seed, "index": i, "tree": text});
@@ -1684,19 +1715,25 @@ fn main() {
     }
 
     let seed = args.seed;
-
-    // 1. macro call sites (fixed)
-    macro_sites(&mut r);
-
-    // Miri interprets ~1000x slower: sizes there are absolute (times --scale), not the tier's
+    // Miri interprets ~10^4 x slower than the optimised build: sizes there are absolute (times
+    // --scale) and the fixed sections are sub-sampled by seed (`--tiny 1` does the same natively)
     let miri = cfg!(miri) || args.get("tiny").is_some();
 
+    // 1. macro call sites (fixed)
+    if miri {
+        set_stride(5, seed);
+    }
+    macro_sites(&mut r);
+
     // 2. static generic shapes over seeded entries
-    let n_static = if miri { (args.scale / 100).max(1) } else { args.n(1_500, 40_000) };
+    if miri {
+        set_stride(8, seed);
+    }
+    let n_static = if miri { 1 } else { args.n(1_500, 40_000) };
     par_cases(&mut r, &args, n_static, |i, r| static_case(r, seed, i, None));
 
     // 3. dynamic trees
-    let n_dyn = if miri { (150 * args.scale / 100).max(1) } else { args.n(150_000, 6_000_000) };
+    let n_dyn = if miri { (12 * args.scale / 100).max(1) } else { args.n(150_000, 6_000_000) };
     par_cases(&mut r, &args, n_dyn, |i, r| dynamic_case(r, seed, i));
 
     std::process::exit(r.finish());
